@@ -1,0 +1,9 @@
+//go:build verif
+
+package writer
+
+// VerifKafkaStub makes NewKafkaDataHandler return a handler without a producer:
+// librdkafka's poller sits in cgo, which a simulation harness cannot park.
+var VerifKafkaStub bool
+
+func verifKafkaStub() bool { return VerifKafkaStub }
